@@ -154,6 +154,16 @@ mod verif_kani {
 
     /// position arithmetic, complete for one capacity: all sequence counts (incl. wrap-around of the
     /// sequence count), all indices
+    /// C06 / C12: len() is the number of queued messages in EVERY state satisfying the representation invariant,
+    /// whatever the capacity (power of two or not), sequence count and dequeue index.
+    fn len_contract(capacity: usize) {
+        let (q, _view, len, _closed) = any_valid_queue(capacity);
+        assert!(q.len() == len);
+        kani::cover!(len == capacity);
+        kani::cover!(len > 0 && len < capacity);
+        mem::forget(q);
+    }
+
     fn pos_contract(capacity: usize) {
         let q: Queue<u8> = Queue::new(capacity);
         let s: usize = kani::any();
@@ -232,6 +242,22 @@ mod verif_kani {
     #[kani::unwind(8)]
     fn pos_contract_cap5() { pos_contract(5); }
     // Sequential history check against a FIFO reference model.
+    #[kani::proof]
+    #[kani::unwind(6)]
+    fn len_contract_cap3() { len_contract(3); }
+    #[kani::proof]
+    #[kani::unwind(7)]
+    fn len_contract_cap4() { len_contract(4); }
+    #[kani::proof]
+    #[kani::unwind(8)]
+    fn len_contract_cap5() { len_contract(5); }
+    #[kani::proof]
+    #[kani::unwind(9)]
+    fn len_contract_cap6() { len_contract(6); }
+    #[kani::proof]
+    #[kani::unwind(10)]
+    fn len_contract_cap7() { len_contract(7); }
+
     fn seq_history(capacity: usize, nops: usize) {
         let q: Queue<u8> = Queue::new(capacity);
         // model
